@@ -47,6 +47,7 @@ func main() {
 	run.Floor("get_unknown_or_odd", 2000)
 	run.Floor("loglist_checks", 5000)
 	run.Floor("requests_with_storage_fault", 100)
+	run.Floor("reads_with_storage_fault", 200)
 	run.Floor("refused_first_submission_then_list", 300)
 	dir := run.Scratch()
 	run.Units("hist", run.Pick(800, 20000), 0, func(unit int64, r *rand.Rand) {
@@ -125,6 +126,37 @@ func main() {
 					}
 				}
 				run.Distinct("nontrivial", fmt.Sprintf("known/%d/%v/%s/%d", rec.Code, want != nil, h.Kind, len(s.After.Logs)))
+			}
+			// a read that fails in storage is not "nothing stored": while a checkpoint is held for the log
+			// the API may answer 5xx (or the exact bytes), never 404 / os.ErrNotExist, never other bytes
+			if unit%3 == 2 && i%2 == 1 {
+				fl := u.Logs[r.IntN(len(u.Logs))]
+				if want := lastRet[fl.ID]; want != nil {
+					var rec *httptest.ResponseRecorder
+					viaClient := r.IntN(2) == 0
+					var cb []byte
+					var cerr error
+					fired := h.ReadFault(r, func() {
+						if viaClient {
+							cb, cerr = client.GetLatestCheckpoint(context.Background(), fl.ID)
+						} else {
+							rec = get(fl.ID)
+						}
+					})
+					if fired != "" {
+						run.Count("reads_with_storage_fault")
+						run.Distinct("nontrivial", fmt.Sprintf("read_fault/%s/%s", fired, h.Kind))
+						d := detail(map[string]any{"fault": fired, "stored": string(want)})
+						if viaClient {
+							if errors.Is(cerr, os.ErrNotExist) || (cerr == nil && !bytes.Equal(cb, want)) {
+								run.Violate("read_fault_reported_as_nothing_stored;client;"+fired, fmt.Sprintf("the store failed a read (%s) for a log with a stored checkpoint; the bundled client returned err=%v and %d bytes", fired, cerr, len(cb)), unit, d)
+							}
+						} else if rec.Code == 404 || (rec.Code == 200 && !bytes.Equal(rec.Body.Bytes(), want)) {
+							d["body"] = rec.Body.String()
+							run.Violate("read_fault_reported_as_nothing_stored;get;"+fired, fmt.Sprintf("the store failed a read (%s) for a log with a stored checkpoint; GET answered %d", fired, rec.Code), unit, d)
+						}
+					}
+				}
 			}
 			// unknown and odd IDs
 			kl := u.Logs[r.IntN(len(u.Logs))]
